@@ -152,7 +152,8 @@ def evaluate(nl, assignment):
     return memo
 
 
-def render(nl, rng=None, layout="plain", order=None, comments=False, one_per_statement=False, header_comments=False):
+def render(nl, rng=None, layout="plain", order=None, comments=False, one_per_statement=False, header_comments=False,
+           b_consts_only=False):
     """Verilog text.  layout: 'plain' (writer-like), 'fuzz' (random spaces/tabs/newlines between tokens,
     never between `)` and `;`), 'tight' (no optional whitespace)."""
     def ws(opt=True):
@@ -218,7 +219,10 @@ def render(nl, rng=None, layout="plain", order=None, comments=False, one_per_sta
         body.insert(rng.randrange(len(body) + 1), "  // a comment line\n")
     out += body
     out.append("endmodule\n")
-    return "".join(out)
+    text = "".join(out)
+    if b_consts_only:
+        text = text.replace("1'h", "1'b")
+    return text
 
 
 # ---------------------------------------------------------------- generators
